@@ -59,17 +59,7 @@ func (c *Calcium) doCreateWorkloads(ctx context.Context, opts *types.DeployOptio
 	)
 
 	_ = c.pool.Invoke(func() {
-		defer func() {
-			cctx, cancel := context.WithTimeout(utils.NewInheritCtx(ctx), c.config.GlobalTimeout)
-			for nodename := range deployMap {
-				processing := opts.GetProcessing(nodename)
-				if err := c.store.DeleteProcessing(cctx, processing); err != nil {
-					logger.Errorf(ctx, err, "delete processing failed for %s", nodename)
-				}
-			}
-			close(ch)
-			cancel()
-		}()
+		defer close(ch)
 
 		var resourceCommit wal.Commit
 		defer func() {
@@ -87,6 +77,20 @@ func (c *Calcium) doCreateWorkloads(ctx context.Context, opts *types.DeployOptio
 					if err := commit(); err != nil {
 						logger.Errorf(ctx, err, "commit wal failed: %s, %s", eventProcessingCreated, nodename)
 					}
+				}
+			}
+		}()
+
+		// the processing markers must be deleted BEFORE their wal events are committed (deferred
+		// calls run in reverse order): a crash in between then leaves pending events that delete
+		// the markers on recovery, instead of markers that nothing will ever delete
+		defer func() {
+			cctx, cancel := context.WithTimeout(utils.NewInheritCtx(ctx), c.config.GlobalTimeout)
+			defer cancel()
+			for nodename := range deployMap {
+				processing := opts.GetProcessing(nodename)
+				if err := c.store.DeleteProcessing(cctx, processing); err != nil {
+					logger.Errorf(ctx, err, "delete processing failed for %s", nodename)
 				}
 			}
 		}()
